@@ -103,7 +103,7 @@ def is_const(t):
 
 
 class Path:
-    __slots__ = ("constraints", "events", "ret", "end", "blocks", "env", "mem")
+    __slots__ = ("constraints", "events", "ret", "end", "blocks", "env", "mem", "log", "state")
 
     def __init__(self):
         self.constraints = []
@@ -258,12 +258,14 @@ class Walker:
         return ("unknown", "rvalue:" + k)
 
     # -- walking ------------------------------------------------------------
-    def run(self):
-        st = {"env": dict(self.init_env), "mem": {}, "cons": [], "events": [], "visits": {}, "blocks": [], "ncall": 0, "mutrefs": set()}
-        stack = [(0, st)]
+    def run(self, start=0, state=None):
+        st = state if state is not None else {"env": dict(self.init_env), "mem": {}, "cons": [], "events": [], "visits": {}, "blocks": [], "ncall": 0, "mutrefs": set(), "log": []}
+        stack = [(start, st)]
+        first = state is not None
         while stack:
             bid, st = stack.pop()
-            self.step(bid, st, stack)
+            self.step(bid, st, stack, first=first)
+            first = False
             if len(self.paths) > self.max_paths:
                 raise PathLimit(self.body.path)
         return self.paths
@@ -277,13 +279,16 @@ class Walker:
         p.blocks = st["blocks"]
         p.env = st["env"]
         p.mem = st["mem"]
+        p.log = st["log"]
+        p.state = st
         self.paths.append(p)
 
     @staticmethod
     def fork(st):
         return {"env": dict(st["env"]), "mem": dict(st["mem"]), "cons": list(st["cons"]),
                 "events": list(st["events"]), "visits": dict(st["visits"]), "blocks": list(st["blocks"]),
-                "ncall": st["ncall"], "mutrefs": set(st["mutrefs"])}
+                "ncall": st["ncall"], "mutrefs": set(st["mutrefs"]), "log": list(st["log"]),
+                **{k: (dict(v) if isinstance(v, dict) else list(v) if isinstance(v, list) else v) for k, v in st.items() if k.startswith("x_")}}
 
     def known(self, st, d):
         """value forced for discriminant term d by earlier constraints, and excluded values"""
@@ -297,8 +302,40 @@ class Walker:
                     ne.update(v)
         return eq, ne
 
-    def step(self, bid, st, stack):
+    # -- hooks (overridden by the numeric interpreter) -------------------------
+    region = None          # set of block ids the walk is restricted to (loop bodies)
+    region_head = None
+
+    def head_hook(self, bid, st, stack):
+        return False
+
+    def call_hook(self, st, t, fname, resolved, args):
+        return None
+
+    def add_event(self, st, ev):
+        st["events"].append(ev)
+        st["log"].append(("ev", ev))
+
+    def add_cons(self, st, c):
+        st["cons"].append(c)
+        st["log"].append(("cons", c))
+
+    def leave(self, st, nxt):
+        """region bookkeeping when control moves to block nxt; returns True if the walk of this state ends here"""
+        if self.region is not None:
+            if nxt == self.region_head:
+                self.finish(st, ("back", nxt))
+                return True
+            if nxt not in self.region:
+                self.finish(st, ("exit", nxt))
+                return True
+        return False
+
+    def step(self, bid, st, stack, first=False):
         while True:
+            if not first and self.head_hook(bid, st, stack):
+                return
+            first = False
             n = st["visits"].get(bid, 0)
             if n > self.unroll:
                 self.finish(st, ("cut", bid))
@@ -319,18 +356,24 @@ class Walker:
                         st["env"][key[1]] = val
                     else:
                         st["mem"][key] = val
-                        st["events"].append(("store", key, val, s.get("line")))
+                        self.add_event(st, ("store", key, val, s.get("line")))
             t = blk["term"]
             k = t["k"]
             if k == "goto":
+                if self.leave(st, t["target"]):
+                    return
                 bid = t["target"]
                 continue
             if k == "drop":
-                st["events"].append(("drop", self.place_term(st, t["place"], read=False)))
+                self.add_event(st, ("drop", self.place_term(st, t["place"], read=False)))
+                if self.leave(st, t["target"]):
+                    return
                 bid = t["target"]
                 continue
             if k == "assert":
-                st["events"].append(("assert", t["msg"].get("k"), self.operand(st, t["cond"]), t["expected"], t["msg"]))
+                self.add_event(st, ("assert", t["msg"].get("k"), self.operand(st, t["cond"]), t["expected"], t["msg"], t.get("line")))
+                if self.leave(st, t["target"]):
+                    return
                 bid = t["target"]
                 continue
             if k == "return":
@@ -351,6 +394,7 @@ class Walker:
                 else:
                     fterm = None
                 dest = t["dest"]
+                forks = None
                 if fname == TRANSPARENT_TRY and len(args) == 1:
                     res = ("try", args[0])
                 elif fname == FROM_RESIDUAL and len(args) == 1:
@@ -363,22 +407,44 @@ class Walker:
                                   for a in args)
                     ev = ("call", fname, args, res, resolved, t.get("line"), fterm, tuple(t["func"].get("fn_args", [])), rargs,
                           self.body.local_ty(dest["l"]) if not dest["proj"] else None)
-                    st["events"].append(ev)
-                    # &mut arguments: the callee may change what they point to
-                    for a in args:
-                        if a[0] == "ref" and a in st["mutrefs"]:
-                            for key in [kk for kk in st["mem"] if _mentions(kk, a[1])]:
-                                del st["mem"][key]
-                            if a[1][0] == "local" and len(a[1]) > 2 and a[1][2] == self.body.path and a[1][1] in st["env"]:
-                                st["env"][a[1][1]] = ("after", res, st["env"][a[1][1]])
-                if not dest["proj"]:
-                    st["env"][dest["l"]] = res
-                else:
-                    key = self.place_term(st, dest, read=False)
-                    st["mem"][key] = res
-                    st["events"].append(("store", key, res, t.get("line")))
+                    self.add_event(st, ev)
+                    forks = self.call_hook(st, t, fname, resolved, args)
+                    if forks is None:
+                        # &mut arguments: the callee may change what they point to
+                        for a in args:
+                            if a[0] == "ref" and a in st["mutrefs"]:
+                                for key in [kk for kk in st["mem"] if _mentions(kk, a[1])]:
+                                    del st["mem"][key]
+                                if a[1][0] == "local" and len(a[1]) > 2 and a[1][2] == self.body.path and a[1][1] in st["env"]:
+                                    st["env"][a[1][1]] = ("after", res, st["env"][a[1][1]])
+                if forks is None:
+                    forks = [{"cons": [], "res": res, "env": {}}]
+                conts = []
+                for i, fk in enumerate(forks):
+                    s2 = st if i == len(forks) - 1 else self.fork(st)
+                    for c in fk.get("cons", []):
+                        self.add_cons(s2, c)
+                    for l, v in fk.get("env", {}).items():
+                        s2["env"][l] = v
+                    for kx, v in fk.get("mem", {}).items():
+                        s2["mem"][kx] = v
+                    r2 = fk.get("res", res)
+                    if not dest["proj"]:
+                        s2["env"][dest["l"]] = r2
+                    else:
+                        key = self.place_term(s2, dest, read=False)
+                        s2["mem"][key] = r2
+                        self.add_event(s2, ("store", key, r2, t.get("line")))
+                    conts.append(s2)
                 if t["target"] is None:
-                    self.finish(st, ("diverge", fname, args))
+                    for s2 in conts:
+                        self.finish(s2, ("diverge", fname, args))
+                    return
+                for s2 in conts[:-1]:
+                    if not self.leave(s2, t["target"]):
+                        stack.append((t["target"], s2))
+                st = conts[-1]
+                if self.leave(st, t["target"]):
                     return
                 bid = t["target"]
                 continue
@@ -390,12 +456,14 @@ class Walker:
                 if is_const(d):
                     kv = int(d[1]) if not isinstance(d[1], bool) else (1 if d[1] else 0)
                 elif d[0] == "discr" and d[1][0] == "agg" and d[1][1] == "adt":
-                    kv = ("variant", d[1][3])
+                    kv = self.variant_index(d[1])
                 if isinstance(kv, int):
                     nxt = t["otherwise"]
                     for v, x in targets:
                         if v == kv:
                             nxt = x
+                    if self.leave(st, nxt):
+                        return
                     bid = nxt
                     continue
                 if d[0] == "discr" and d[1][0] == "try":
@@ -412,23 +480,41 @@ class Walker:
                 vals = [v for v, _ in targets]
                 if eq is None or eq not in vals:
                     branches.append((("notin", tuple(vals)), t["otherwise"]))
-                first = True
                 todo = []
                 for (op, v), x in branches:
                     if self.body.blocks[x]["term"]["k"] == "unreachable" and not self.body.blocks[x]["stmts"]:
+                        continue
+                    if not self.branch_feasible(st, d, op, v):
                         continue
                     todo.append(((op, v), x))
                 if not todo:
                     return
                 for (op, v), x in todo[1:]:
                     s2 = self.fork(st)
-                    s2["cons"].append((d, op, v))
-                    stack.append((x, s2))
+                    self.add_cons(s2, (d, op, v))
+                    if not self.leave(s2, x):
+                        stack.append((x, s2))
                 (op, v), x = todo[0]
-                st["cons"].append((d, op, v))
+                self.add_cons(st, (d, op, v))
+                if self.leave(st, x):
+                    return
                 bid = x
                 continue
             raise AssertionError("unknown terminator " + k)
+
+    def branch_feasible(self, st, d, op, v):
+        return True
+
+    def variant_index(self, agg):
+        """variant index of an ADT aggregate term when it can be told from the name (Option/Result)"""
+        name, var = agg[2], agg[3]
+        if name in ("std::option::Option", "core::option::Option"):
+            return {"None": 0, "Some": 1}.get(var)
+        if name in ("std::result::Result", "core::result::Result"):
+            return {"Ok": 0, "Err": 1}.get(var)
+        if name in ("std::ops::ControlFlow", "core::ops::ControlFlow"):
+            return {"Continue": 0, "Break": 1}.get(var)
+        return None
 
 
 def _mentions(t, sub):
